@@ -45,7 +45,7 @@ func (n *Extension) Negotiate(opt httphead.Option) (accept httphead.Option, err 
 	{
 		offer := n.params.ServerMaxWindowBits
 		want := want.ServerMaxWindowBits
-		if offer > want {
+		if offer.Defined() && (!want.Defined() || want > offer) {
 			// A server declines an extension negotiation offer
 			// with this parameter if the server doesn't support
 			// it.
